@@ -412,6 +412,18 @@ fn monitors(nt: usize, sched: &[usize], steps: &[Vec<(u32, i64, i64)>]) -> Vec<S
                     see_g((a - 1) / 2, &mut g_seen, &in_cs, &ann, &mut out, k);
                 }
                 1216 => see_g((a - 1) / 2, &mut g_seen, &in_cs, &ann, &mut out, k),
+                17 => {
+                    // repin_without_collect publishes a newer epoch: legal only outside every critical section of
+                    // this thread (during the collection that follows the drop of its last guard, or from
+                    // reactivate on its sole guard)
+                    if in_cs[t] {
+                        out.push(format!("PROPFAIL C13 step {}: thread {} re-pins (publishes a newer epoch) inside its live critical section {} (a guard is still alive)", k, t, serial[t]));
+                        out.push(format!("PROPFAIL C14 step {}: the announcement of thread {} changes inside its live critical section {}", k, t, serial[t]));
+                        out.push(format!("PROPFAIL C16 step {}: thread {} is re-pinned although it holds more than the guard being reactivated (critical section {})", k, t, serial[t]));
+                    } else if ndepth[t] > 0 {
+                        out.push(format!("PROPFAIL C13 step {}: thread {} re-pins while a guard created inside a running destructor is live (nested section {}) [nested-guard-during-collection]", k, t, nserial[t]));
+                    }
+                }
                 1218 | 1221 => see_g(a / 2, &mut g_seen, &in_cs, &ann, &mut out, k),
                 20 => see_g(a / 2, &mut g_seen, &in_cs, &ann, &mut out, k),
                 2010 => {
